@@ -141,12 +141,19 @@ def run_build(ctx, cfg, tag="", tap=True, prior=None, src_mutator=None, keep_src
             shutil.rmtree(tapdir)
         os.makedirs(tapdir)
         e["VERIF_TAP_DIR"] = tapdir
+    import signal
+    p = subprocess.Popen([os.path.join(ctx.bins, "prebuild")] + cfg.args(), cwd=src, env=e,
+                         stdout=subprocess.PIPE, stderr=subprocess.STDOUT, start_new_session=True)
     try:
-        p = subprocess.run([os.path.join(ctx.bins, "prebuild")] + cfg.args(), cwd=src, env=e,
-                           stdout=subprocess.PIPE, stderr=subprocess.STDOUT, timeout=300)
-        rc, log = p.returncode, p.stdout.decode("utf-8", "replace")
-    except subprocess.TimeoutExpired as ex:
-        rc, log = -9, "TIMEOUT\n" + (ex.stdout or b"").decode("utf-8", "replace")
+        out, _ = p.communicate(timeout=300)
+        rc, log = p.returncode, out.decode("utf-8", "replace")
+    except subprocess.TimeoutExpired:
+        try:
+            os.killpg(p.pid, signal.SIGKILL)
+        except OSError:
+            pass
+        out, _ = p.communicate()
+        rc, log = -9, "TIMEOUT\n" + (out or b"").decode("utf-8", "replace")
     out = os.path.join(ctx.scratch, "builds", name)
     if os.path.exists(out):
         shutil.rmtree(out)
